@@ -483,6 +483,17 @@ func (r *run) runStream() {
 	if prop == "C15" && t.Chance(core.Fault, 1, 120) {
 		over = overLimitKinds[t.Draw(core.Fault, len(overLimitKinds))]
 	}
+	// C01-C03: now and then the largest batch the domain allows
+	boundaryAt := -1
+	if prop == "C01" || prop == "C02" || prop == "C03" {
+		rate := 1200
+		if thorough {
+			rate = 400
+		}
+		if t.Chance(core.Gen, 1, rate) {
+			boundaryAt = t.Draw(core.Gen, hp.nBatches)
+		}
+	}
 	for i := 0; i < hp.nBatches; i++ {
 		r.batch = i
 		var b *batchIn
@@ -490,6 +501,9 @@ func (r *run) runStream() {
 			b = overLimitBatch(over)
 			r.fault("overlimit_" + over)
 			r.feats["overlimit"] = over
+		} else if boundaryAt == i {
+			b = boundaryBatch(hp.signals[0])
+			r.probe("boundary_batch_65535_parents")
 		} else {
 			b = r.genBatch(hp, i)
 		}
